@@ -307,4 +307,199 @@ Proof.
 Qed.
 End RefLoop.
 
+Lemma modify_model_at_other m f w w' m2 :
+  modify_model m f w = Val (OK tt, w') -> m2 <> m -> model_at w' m2 = model_at w m2.
+Proof.
+  intros H Hne. apply modify_model_inv in H as (x & _ & _ & ->). unfold model_at. cbn [w_models].
+  apply list_set_nth_neq. intros E. apply Hne. apply N2Nat.inj. exact E.
+Qed.
+
+(* ---------- move_element_full ---------- *)
+Theorem move_full_follow self mv pos m m_src version w w' r :
+  Inv06 T check_fn w ->
+  move_element_full T tab_en check_fn self mv pos m m_src version w = Val (OK r, w') ->
+  MReach T w m_src mv -> m <> m_src -> (exists xd, model_at w m = Some xd) ->
+  (forall n, w_nodes w self = Some n -> isref T (n_type n) = false) ->
+  exists xs x', model_at w m_src = Some xs /\ model_at w' m = Some x' /\
+    (* (a) a reference inside the subtree whose text is the path of an element of the subtree *)
+    (forall rf p x, reach T w mv rf -> ref_text T w rf = Some p -> assoc_get p (m_idents xs) = Some x -> reach T w mv x ->
+       exists p', ref_text T w' rf = Some p' /\ assoc_get p' (m_idents x') = Some x /\ In rf (origins_of x' p')) /\
+    (* (b) a reference inside the subtree pointing elsewhere keeps its text and is registered in the destination *)
+    (forall rf p, reach T w mv rf -> ref_text T w rf = Some p ->
+       ~ (exists x, assoc_get p (m_idents xs) = Some x /\ reach T w mv x) ->
+       ref_text T w' rf = Some p /\ In rf (origins_of x' p)) /\
+    (* (c) a reference outside the subtree keeps its text *)
+    (forall rf p, ref_text T w rf = Some p -> ~ reach T w mv rf -> ref_text T w' rf = Some p).
+Proof.
+  intros (HT & H4 & H5) H HRmv Hmm (xd & Hxd) Hselfref. unfold move_element_full in H.
+  wk H. apply get_node_inv in E as (n & Hn & Q & _). injection Q as ->.
+  wk H. apply get_node_inv in E as (mn & Hmn & Q & _). injection Q as ->.
+  wk H. rename E into Esrc. wk H. rename E into Edst. wk H. rename E into Epar.
+  destruct a1 as [src_parent|]; [|discriminate H].
+  wk H. apply wget_inv in E as ([= ->] & _).
+  wk H. rename E into Edfs. wk H. rename E into Enp. wk H. rename E into Ert.
+  match type of Esrc with _ = Val (OK ?x, _) => rename x into src end.
+  match type of Edst with _ = Val (OK ?x, _) => rename x into dpre end.
+  match type of Edfs with _ = Val (OK ?x, _) => rename x into ids end.
+  match type of Enp with _ = Val (OK ?x, _) => rename x into orig end.
+  match type of Ert with _ = Val (OK ?x, _) => rename x into L end.
+  destruct (path_unchecked_spec T w m_src mv mn HT Hmn HRmv) as (_ & Hps).
+  destruct (Hps _ _ Esrc) as (_ & (src0 & [= <-] & Hsp)).
+  destruct HRmv as (xs & Hxs & Hrootmv). pose proof (ex_intro _ xs (conj Hxs Hrootmv) : MReach T w m_src mv) as HRmv.
+  (* the snapshot of paths *)
+  assert (Htodo : forall k x, In (k, x) orig ->
+            assoc_get k (m_idents xs) = Some x /\ reach T w mv x /\ old_form src k).
+  { intros k x Hin.
+    destruct (named_paths_sound T w ids orig Enp k x Hin) as (Hxi & nx & Hnx & Hpx).
+    assert (Hrx : reach T w mv x) by (apply creach_reach; eapply dfs_sound; eauto).
+    assert (HRx : MReach T w m_src x) by (exists xs; split; [exact Hxs|eapply reach_trans; eauto]).
+    destruct (path_of_spec T w m_src x nx HT Hnx HRx) as (_ & Hps2). destruct (Hps2 _ _ Hpx) as (_ & Hif).
+    destruct (identifiable T w x) eqn:Eix; [|discriminate Hif]. destruct Hif as (p0 & [= <-] & Hspx).
+    split; [|split; [exact Hrx|eapply below_old_form; eauto]].
+    apply (i4_exact _ _ _ H4 m_src xs Hxs). split; [exact HRx|]. split; assumption. }
+  assert (Hcov : forall p x, assoc_get p (m_idents xs) = Some x -> reach T w mv x -> In (p, x) orig).
+  { intros p x Hgx Hrx. pose proof (proj1 (i4_exact _ _ _ H4 m_src xs Hxs p x) Hgx) as (HRx & Hidx & Hspx).
+    unfold identifiable in Hidx. destruct (w_nodes w x) as [nx|] eqn:Hnx; [|discriminate Hidx].
+    assert (Hnmd : is_named T (n_type nx) = Val true).
+    { unfold identifiable_n in Hidx. apply andb_true_iff in Hidx as (Hnm & _). unfold named in Hnm.
+      destruct (is_named T (n_type nx)) as [[|]| |]; try discriminate Hnm. reflexivity. }
+    assert (Hxi : In x ids) by (eapply dfs_covers; [apply (reach_creach T); exact Hrx|exact Edfs]).
+    destruct (named_paths_val T w ids orig Enp x nx Hxi Hnx Hnmd) as (r0 & Hr0).
+    destruct (path_of_spec T w m_src x nx HT Hnx HRx) as (_ & Hps2). destruct (Hps2 _ _ Hr0) as (_ & Hif).
+    assert (Hidx2 : identifiable T w x = true) by (unfold identifiable; rewrite Hnx; exact Hidx).
+    rewrite Hidx2 in Hif. destruct Hif as (p0 & -> & Hsp0).
+    destruct (specpath_fun T w m_src m_src x _ _ HT Hspx Hsp0) as (_ & <-).
+    eapply named_paths_covers; eauto. }
+  (* detach *)
+  wk H. rename E into Edet. unfold detach_from in Edet. wk Edet.
+  apply get_node_inv in E as (pn & Hpn & Q & _). injection Q as ->.
+  destruct (index_of (citem_is mv) (n_content pn)) as [kpos|] eqn:Eidx; [|discriminate Edet].
+  apply set_node_inv in Edet as (_ & ->).
+  assert (Hpar : n_parent mn = PElem src_parent).
+  { unfold parent_of in Epar. destruct (n_parent mn); try discriminate Epar.
+    apply wret_inv in Epar as ([= ->] & _). reflexivity. }
+  assert (Hmsp : mv <> src_parent) by (intros <-; exact (no_self_parent w mv mn HT Hmn Hpar)).
+  (* the two clean-up loops in the source model *)
+  wk H. rename E into Erm1. match type of Erm1 with _ = Val (OK ?u, _) => destruct u end.
+  match type of Erm1 with _ _ ?wa = Val (_, ?wb) => assert (HR : frame_nodes wa wb /\ model_at wb m = model_at wa m) end.
+  { eapply (srcloop_frame) with (body := fun a : list N * id => remove_identifiable m_src (fst a)); [..|exact Erm1];
+      first [ reflexivity | (intros [? ?] ?; reflexivity)
+            | (intros ? ? ? Hb; split; [eapply modify_model_frame; exact Hb|eapply modify_model_at_other; eauto]) ]. }
+  destruct HR as ((R1 & R2 & R3) & R4).
+  wk H. rename E into Erm2. match type of Erm2 with _ = Val (OK ?u, _) => destruct u end.
+  match type of Erm2 with _ _ ?wa = Val (_, ?wb) => assert (HR : frame_nodes wa wb /\ model_at wb m = model_at wa m) end.
+  { eapply (srcloop_frame) with (body := fun a : list N * id => remove_reference_origin m_src (fst a) (snd a)); [..|exact Erm2];
+      first [ reflexivity | (intros [? ?] ?; reflexivity)
+            | (intros ? ? ? Hb; split; [eapply modify_model_frame; exact Hb|eapply modify_model_at_other; eauto]) ]. }
+  destruct HR as ((Q1 & Q2 & Q3) & Q4).
+  cbn [w_nodes w_next w_files] in *.
+  (* re-parent *)
+  wk H. apply modify_node_inv in E as (n1 & Hn1 & _ & ->). rewrite Q1, R1 in Hn1. rewrite upd_neq in Hn1 by exact Hmsp.
+  assert (n1 = mn) by congruence. subst n1. clear Hn1.
+  wk H. apply get_node_inv in E as (mn2 & Hmn2 & Q & _). injection Q as ->.
+  cbn [w_nodes] in Hmn2. rewrite upd_eq in Hmn2. injection Hmn2 as <-.
+  match type of H with wbind _ _ ?ww = _ => set (w2 := ww) in * end.
+  assert (Hw2n : forall i, i <> mv -> i <> src_parent -> w_nodes w2 i = w_nodes w i).
+  { intros i H1 H2. unfold w2. cbn [w_nodes]. rewrite upd_neq by assumption. rewrite Q1, R1. apply upd_neq. exact H2. }
+  assert (Hw2mv : w_nodes w2 mv = Some (set_parent mn (PElem self))) by (unfold w2; cbn [w_nodes]; apply upd_eq).
+  assert (Hw2names : forall i, option_map n_name (w_nodes w2 i) = option_map n_name (w_nodes w i)).
+  { intros i. unfold w2. cbn [w_nodes]. rewrite Q1, R1. unfold upd.
+    destruct (i =? mv) eqn:Eq1; [apply N.eqb_eq in Eq1; subst i; rewrite Hmn; reflexivity|].
+    destruct (i =? src_parent) eqn:Eq2; [apply N.eqb_eq in Eq2; subst i; rewrite Hpn; reflexivity|reflexivity]. }
+  assert (Hxd2 : model_at w2 m = Some xd).
+  { unfold w2. match goal with |- model_at {| w_nodes := _; w_next := _; w_files := _; w_models := w_models ?wx |} m = _ =>
+      change (model_at wx m = Some xd) end. rewrite Q4, R4. exact Hxd. }
+  wk H. apply (is_identifiable_val T) in E as (_ & [= ->]).
+  rewrite (identifiable_n_same T w w2 mn (set_parent mn (PElem self)) Hw2names eq_refl eq_refl) in H.
+  (* the destination path *)
+  wk H. rename E into Edest.
+  match type of Edest with _ = Val (OK ?d, ?w3) =>
+    rename d into dest;
+    assert (Hw3 : w_models w3 = w_models w2 /\ forall rf p, ref_text T w rf = Some p -> w_nodes w3 rf = w_nodes w2 rf) end.
+  { destruct (identifiable_n T w mn) eqn:Eid.
+    - wk Edest. apply wret_inv in Edest as (_ & ->).
+      destruct (make_unique_ok T _ _ _ _ _ _ E) as (ni & xm0 & Hni & _ & _ & M1 & _ & _ & M4 & _).
+      assert (ni = set_parent mn (PElem self)) by congruence. subst ni. cbn [set_parent n_content] in M4.
+      split; [exact M1|]. intros rf p Hr. apply M4. intros s rest Hc ->.
+      unfold identifiable_n in Eid. apply andb_true_iff in Eid as (_ & Hsc). unfold short_child in Hsc. rewrite Hc in Hsc.
+      destruct (w_nodes w s) as [sn|] eqn:Hsn; [|discriminate Hsc].
+      destruct (n_name sn =? name_short_name T) eqn:Esn; [|discriminate Hsc]. apply N.eqb_eq in Esn.
+      destruct (i4_short _ _ _ H4 s sn Hsn Esn) as (_ & Hsref & _).
+      destruct (ref_text_content T w s p sn Hr Hsn) as (_ & Hc2). unfold isref in Hc2. rewrite Hsref in Hc2. discriminate Hc2.
+    - apply wret_inv in Edest as (_ & ->). split; reflexivity. }
+  destruct Hw3 as (Hw3m & Hw3n).
+  (* registering the identifiable elements *)
+  wk H. rename E into Eadd. match type of Eadd with _ = Val (OK ?u, _) => destruct u end.
+  match type of Eadd with ?ee _ ?w3 = Val (_, ?w4) =>
+    destruct (addid_loop m src dest ee eq_refl (fun _ _ _ => eq_refl) orig w3 xd w4) as ((A1 & A2 & A3) & A4 & x4 & Hx4 & A5 & A6);
+      [unfold model_at in *; rewrite Hw3m; exact Hxd2|exact Eadd|] end.
+  (* the reference loop *)
+  wk H. rename E into Eref. match type of Eref with _ = Val (OK ?u, _) => destruct u end.
+  assert (HfunL : forall s1 s2 i, In (s1, i) L -> In (s2, i) L -> s1 = s2).
+  { intros s1 s2 i H1 H2. destruct (ref_texts_sound w ids L Ert s1 i H1) as (_ & X1).
+    destruct (ref_texts_sound w ids L Ert s2 i H2) as (_ & X2). eapply ref_entry_fun; eauto. }
+  match type of Eref with ?ee _ ?w4 = Val (_, ?w5) =>
+    destruct (refloop_sem m src dest version (fun old_ref => existsb (fun p : list N * id => bytes_eqb (fst p) old_ref) orig)
+                ee eq_refl (fun _ _ _ => eq_refl) L w4 x4 w5 Hx4 HfunL Eref)
+      as (F1 & F2 & F3 & (x5 & Hx5 & F4 & F5 & F6) & F7 & F8) end.
+  (* insertion *)
+  wk H. rename E into Eins. apply wret_inv in H as (_ & <-).
+  unfold content_insert in Eins. wk Eins. apply get_node_inv in E as (n5 & Hn5 & Q & _). injection Q as ->.
+  match type of Eins with (if ?b then _ else _) _ = _ => destruct b end; [discriminate Eins|].
+  apply set_node_inv in Eins as (_ & ->).
+  (* the node of a reference before the last loop *)
+  assert (Hkeep : forall rf p, ref_text T w rf = Some p ->
+            rf <> self /\ exists n4, w_nodes w4 rf = Some n4 /\ ref_text T w4 rf = Some p).
+  { intros rf p Hr.
+    assert (K1 : rf <> src_parent).
+    { intros ->. destruct (ref_text_content T w _ p pn Hr Hpn) as (Hc & _). rewrite Hc in Eidx. cbn in Eidx. discriminate Eidx. }
+    assert (K2 : rf <> self).
+    { intros ->. destruct (ref_text_content T w _ p n Hr Hn) as (_ & Hc). rewrite (Hselfref n Hn) in Hc. discriminate Hc. }
+    split; [exact K2|].
+    assert (Hn43 : w_nodes w4 rf = w_nodes w2 rf) by (rewrite A1; exact (Hw3n rf p Hr)).
+    destruct (N.eq_dec rf mv) as [->|Hne].
+    - exists (set_parent mn (PElem self)). split; [rewrite Hn43; exact Hw2mv|]. rewrite <- Hr.
+      unfold ref_text. rewrite Hn43, Hw2mv, Hmn. reflexivity.
+    - assert (Hsame : w_nodes w2 rf = w_nodes w rf) by (apply Hw2n; assumption).
+      assert (Hnr : exists nr, w_nodes w rf = Some nr).
+      { unfold ref_text in Hr. destruct (w_nodes w rf) as [nr|]; [eauto|discriminate Hr]. }
+      destruct Hnr as (nr & Enr). exists nr. split; [rewrite Hn43, Hsame; exact Enr|].
+      rewrite <- Hr. apply ref_text_node. rewrite Hn43. exact Hsame. }
+  exists xs, x5. split; [exact Hxs|]. split; [exact Hx5|]. split; [|split].
+  - intros rf p x Hrf Hr Hgx Hrx.
+    assert (Hin_o : In (p, x) orig) by (apply Hcov; assumption).
+    destruct (Htodo p x Hin_o) as (_ & _ & (suf & -> & Hb)).
+    assert (HinL : In (src ++ suf, rf) L).
+    { eapply ref_texts_covers; eauto. eapply dfs_covers; [apply (reach_creach T); exact Hrf|exact Edfs]. }
+    assert (Hio : existsb (fun pe : list N * id => bytes_eqb (fst pe) (src ++ suf)) orig = true).
+    { apply existsb_exists. exists (src ++ suf, x). split; [exact Hin_o|]. apply bytes_eqb_refl. }
+    exists (dest ++ suf). destruct (Hkeep rf _ Hr) as (Rself & n4 & Hn4 & Hr4).
+    split; [|split].
+    + pose proof (F7 _ _ HinL) as Hnode. unfold rewrites, newtext in Hnode. rewrite Hio, strip_prefix_app in Hnode. cbn [andb] in Hnode.
+      rewrite Hn4 in Hnode. cbn [option_map] in Hnode.
+      apply (ref_text_rewritten T w4 _ rf n4 (src ++ suf) (dest ++ suf) Hn4 Hr4).
+      cbn [w_nodes]. rewrite upd_neq by exact Rself. exact Hnode.
+    + rewrite F4, A5.
+      refine (proj1 (addid_fold src dest orig (m_idents xd) _ (dest ++ suf)) (src ++ suf) x suf Hin_o (strip_prefix_app _ _) eq_refl).
+      intros p1 e1 p2 e2 s1 s2 I1 I2 E1 E2 Heq. apply app_inv_head in Heq. subst s2.
+      apply strip_prefix_some in E1. apply strip_prefix_some in E2. subst p1 p2.
+      destruct (Htodo _ _ I1) as (G1 & _). destruct (Htodo _ _ I2) as (G2 & _). congruence.
+    + pose proof (F6 _ _ HinL) as Ho. unfold newtext in Ho. rewrite Hio, strip_prefix_app in Ho. exact Ho.
+  - intros rf p Hrf Hr Hnot.
+    assert (HinL : In (p, rf) L).
+    { eapply ref_texts_covers; eauto. eapply dfs_covers; [apply (reach_creach T); exact Hrf|exact Edfs]. }
+    assert (Hio : existsb (fun pe : list N * id => bytes_eqb (fst pe) p) orig = false).
+    { destruct (existsb _ orig) eqn:Ex; [|reflexivity]. exfalso. apply existsb_exists in Ex as ((p0 & x) & Hin0 & Hb).
+      cbn [fst] in Hb. apply bytes_eqb_spec in Hb. subst p0. destruct (Htodo p x Hin0) as (G1 & G2 & _). apply Hnot. eauto. }
+    destruct (Hkeep rf _ Hr) as (Rself & n4 & Hn4 & Hr4).
+    split.
+    + pose proof (F7 _ _ HinL) as Hnode. unfold rewrites in Hnode. rewrite Hio in Hnode. cbn [andb] in Hnode.
+      rewrite <- Hr4. apply ref_text_node. cbn [w_nodes]. rewrite upd_neq by exact Rself. exact Hnode.
+    + pose proof (F6 _ _ HinL) as Ho. unfold newtext in Ho. rewrite Hio in Ho. exact Ho.
+  - intros rf p Hr Hnot. destruct (Hkeep rf _ Hr) as (Rself & n4 & Hn4 & Hr4).
+    rewrite <- Hr4. apply ref_text_node. cbn [w_nodes]. rewrite upd_neq by exact Rself. apply F8.
+    intros s HinL. apply Hnot. destruct (ref_texts_sound w ids L Ert s rf HinL) as (Hi & _).
+    apply creach_reach. eapply dfs_sound; eauto.
+Qed.
+
 End Cross.
